@@ -102,7 +102,7 @@ class State:
             s.sorts[key] = (nidx, sort)
         if key not in s.heap:
             nidx, sort = s.sorts[key]
-            if key in s.fresh_on_create:
+            if key in s.fresh_on_create or (key.startswith('mem:') and 'mem:*' in s.fresh_on_create):
                 s.heap[key] = s._mk(fresh_name(key), nidx, sort)
             else:
                 s.heap[key] = s._mk(key + '@0', nidx, sort)
